@@ -329,7 +329,10 @@ class Verifier:
         if prelude is not None:
             # symbolic set-up executed before the body (e.g. building the adapter object graph with the real __init__s)
             p0 = prelude(ex, p0, values)
-        pre = self.pred(ex, c, "requires", values, p0) if "requires" in c.funcs else z3.BoolVal(True)
+        pre_assumed = []   # postconditions of functions under contract that the precondition itself mentions
+        pre = self.pred(ex, c, "requires", values, p0, assumptions_out=pre_assumed) if "requires" in c.funcs else z3.BoolVal(True)
+        if pre_assumed:
+            pre = z3.And(pre, *pre_assumed)
         if extra_pre is not None:
             pre = z3.And(pre, extra_pre(values))
         is_gen = (not is_class) and any(isinstance(x, (ast.Yield, ast.YieldFrom)) for x in ast.walk(fnode))
@@ -344,6 +347,9 @@ class Verifier:
             if cls is not None:
                 start.env["__class__"] = Fn("class", c.target.replace(":", ".").rsplit(".", 1)[0])
             ex.run_body(fnode, start)
+        if not ex.outcomes:
+            # every path was pruned as infeasible: a contradictory precondition or a contradictory assumed callee contract
+            raise Unsupported(f"contract {cname}: symbolic execution of {c.target} produced no outcome (vacuous)")
         obls = []
         base = f"{prop}/{c.target.split(':')[0].replace('soundevent.', '')}.{c.target.split(':')[1]}{tag}"
         inputs = dict(values)
